@@ -190,7 +190,22 @@ func (o *oracleState) Check(s *Sim, ev *Event, obs *Obs) {
 			ph := &pp.Htlcs[j]
 			l, ok := where[ph.Key]
 			if !ok || l.inv.AddIndex != i {
-				fail("htlc-vanished", "HTLC %s (was %s on invoice #%d) is no longer recorded there", keyStr(ph.Key), htlcStateStr(ph.State), i)
+				// Structural signature of a known lnd defect: the KV
+				// store rewrites the per-set HTLC blob of an AMP
+				// sub-invoice from the ACCEPTED members only, so a new
+				// HTLC that reuses the set id of an already resolved
+				// set erases the resolved members' records.
+				sig := ""
+				if ph.AMP && !o.w.SQL && ph.State != invoices.HtlcStateAccepted {
+					for _, c := range ev.Subs {
+						if c.H != nil && c.H.HasAMP && c.H.AmpSetID == ph.SetID && c.H.Key != ph.Key {
+							if l2, ok2 := where[c.H.Key]; ok2 && l2.inv.AddIndex == i {
+								sig = "kv-amp-setid-reuse-erases-resolved-htlcs"
+							}
+						}
+					}
+				}
+				r.FailSig("htlc-vanished", sig, "[%s store, event %d %s] HTLC %s (was %s on invoice #%d) is no longer recorded there", wn, ev.No, ev.Kind, keyStr(ph.Key), htlcStateStr(ph.State), i)
 			}
 			ch := l.h
 			if ch.State != ph.State {
@@ -398,17 +413,6 @@ func (o *oracleState) Check(s *Sim, ev *Event, obs *Obs) {
 		}
 	}
 
-	// ---- no HTLC both settled and canceled ------------------------------
-	for _, k := range keys {
-		l := where[k]
-		t := o.track(k)
-		settled := t.settleRes || l.h.State == invoices.HtlcStateSettled
-		canceled := t.cancelRes || l.h.State == invoices.HtlcStateCanceled
-		if settled && canceled {
-			fail("settled-and-canceled", "HTLC %s: store says %s, settle resolution seen=%v, cancel resolution seen=%v", keyStr(k), htlcStateStr(l.h.State), t.settleRes, t.cancelRes)
-		}
-	}
-
 	// ---- G. AmtPaid of settled non-AMP invoices -------------------------
 	for _, i := range idxs {
 		p := cur[i]
@@ -461,7 +465,26 @@ func (o *oracleState) Check(s *Sim, ev *Event, obs *Obs) {
 				}
 			}
 			if !ok {
-				fail("replay-verdict", "replayed HTLC %s is recorded as %s, so a replay must be answered with %q, got %s", keyStr(c.H.Key), htlcStateStr(prevH.State), want, v)
+				// Structural signature of a known lnd defect: for
+				// spontaneous payments (keysend / AMP with
+				// AcceptKeySend / AcceptAMP) NotifyExitHopHtlc runs
+				// the just-in-time invoice pre-check (expiry against
+				// the CURRENT height) before it looks the HTLC up, so
+				// a replay at a later height is refused although the
+				// HTLC is recorded as settled/accepted.
+				sig := ""
+				jitFail := v.Class == "fail" &&
+					(v.Outcome == invoices.ResultKeySendError.String() || v.Outcome == invoices.ResultAmpError.String())
+				switch {
+				case jitFail && ev.Fault != "" && ev.Fired:
+					// same root cause, other trigger: the just-in-time
+					// AddInvoice hit the injected write error and the
+					// registry turned that into a FAIL verdict.
+					sig = "jit-invoice-insert-io-error-answered-as-failure"
+				case jitFail && c.Height > t.acceptHeight:
+					sig = "jit-invoice-precheck-refuses-replay-at-later-height"
+				}
+				r.FailSig("replay-verdict", sig, "[%s store, event %d %s] replayed HTLC %s is recorded as %s, so a replay must be answered with %q, got %s", wn, ev.No, ev.Kind, keyStr(c.H.Key), htlcStateStr(prevH.State), want, v)
 			}
 			r.Count("replays_of_recorded_htlc")
 		case prevH == nil && single && t.lastEvent == ev.No-1 && o.lastChange < ev.No-1 &&
@@ -474,6 +497,17 @@ func (o *oracleState) Check(s *Sim, ev *Event, obs *Obs) {
 			r.Count("replays_immediate_of_refused_htlc")
 		}
 		t.lastClass, t.lastPreimage, t.lastEvent, t.lastHeight = v.Class, v.Preimage, ev.No, c.Height
+	}
+
+	// ---- no HTLC both settled and canceled ------------------------------
+	for _, k := range keys {
+		l := where[k]
+		t := o.track(k)
+		settled := t.settleRes || l.h.State == invoices.HtlcStateSettled
+		canceled := t.cancelRes || l.h.State == invoices.HtlcStateCanceled
+		if settled && canceled {
+			fail("settled-and-canceled", "HTLC %s: store says %s, settle resolution seen=%v, cancel resolution seen=%v", keyStr(k), htlcStateStr(l.h.State), t.settleRes, t.cancelRes)
+		}
 	}
 
 	// ---- I. a call that failed with an injected write error changes nothing
